@@ -15,7 +15,12 @@
 //	    (names and contents) equal the pre-operation snapshot;
 //	(4) no two wallets in memory share a fingerprint or a generating secret (type+seed+passphrase,
 //	    or xpub) as supplied by the harness;
-//	(5) temporary wallets never reach the disk (no file of their name, their seed in no file).
+//	(5) temporary wallets never reach the disk (no file of their name, their seed in no file);
+//	(6) a successful operation on wallet X changed file X and no other file of the directory.
+//
+// A sequence spans several service lifetimes: "restart" steps stop the service, change the directory
+// from outside (renamed / copied / restored / reverted / removed wallet files, stray files) and start
+// a new service on it - see oob.go.
 //
 // The generator never re-creates the seed or file name of an *unloaded* wallet (statement silent).
 package main
@@ -53,6 +58,7 @@ type mw struct { // what the harness knows about a wallet it created
 	encrypted bool
 	pw        []byte
 	genName   bool
+	offName   bool // the file's name differs from the name recorded inside it (out-of-band rename / copy) until the service writes it
 }
 
 func (m *mw) key() string {
@@ -84,6 +90,13 @@ type seqState struct {
 	nameCtr  int
 	trace    []string
 	bad      bool
+
+	// service life cycles and out-of-band directory changes (oob.go)
+	gone      map[string]*mw    // models of the unloaded wallets (they come back at the next start)
+	away      map[string]*mw    // wallet files renamed to a non-wallet name, by that name
+	versions  map[*mw][]version // states the service wrote for a wallet
+	namesUsed map[string]bool   // *.wlt names handed out for out-of-band renames / copies
+	touch     string            // the wallet id the current operation works on ("" none, "*" restart)
 }
 
 func (s *seqState) logf(f string, a ...interface{}) { s.trace = append(s.trace, fmt.Sprintf(f, a...)) }
@@ -171,6 +184,7 @@ func (s *seqState) before() pre {
 	if err != nil {
 		s.violation("memory-unreadable", nil, err.Error())
 	}
+	s.touch = ""
 	return pre{m, readDir(s.dir)}
 }
 
@@ -301,6 +315,28 @@ func (s *seqState) after(p pre, opErr error, ignore func(string) bool) {
 			}
 		}
 		s.r.Count("checked.temp_wallet_not_on_disk", 1)
+	}
+	// (6) a successful operation on wallet X writes file X and no other (files the service does not
+	// own - other wallets, stray backups, moved-away wallets - stay as they are)
+	if opErr == nil && s.touch != "*" {
+		if d := diffFiles(p.dir.files, disk.files, func(n string) bool { return n == s.touch || (ignore != nil && ignore(n)) }); d != "" {
+			s.violation("operation-wrote-another-file", nil, fmt.Sprintf("operation on %q: %s", s.touch, d))
+			return
+		}
+		s.r.Count("checked.op_wrote_only_its_file", 1)
+	}
+	// remember the state the service wrote (later out-of-band reverts / restored backups use it)
+	if opErr == nil && s.touch != "" && s.touch != "*" {
+		if m := s.loaded[s.touch]; m != nil && !m.temp {
+			if b, ok := disk.files[s.touch]; ok {
+				if m.offName && !bytes.Equal(b, p.dir.files[s.touch]) {
+					// first write after the file got another name from outside, all clauses held
+					m.offName = false
+					s.r.Count("checked.write_after_out_of_band_name_change", 1)
+				}
+				s.recordVersion(m, b)
+			}
+		}
 	}
 }
 
@@ -525,6 +561,7 @@ func (s *seqState) opCreate(temp bool) {
 	s.count(what+"."+variant, err)
 	if err == nil {
 		m.id = w.Filename()
+		s.touch = m.id
 		s.loaded[m.id] = m
 		if m.key() != "" {
 			s.used[m.key()] = true
@@ -535,6 +572,7 @@ func (s *seqState) opCreate(temp bool) {
 		if _, hit := s.unloaded[m.id]; hit && m.genName {
 			// a generated name collided with an unloaded wallet's file: outside the statement
 			delete(s.unloaded, m.id)
+			delete(s.gone, m.id)
 			s.r.Count("excluded.generated_name_hits_unloaded_file", 1)
 		}
 		s.r.Count("wallets.created."+kind, 1)
@@ -591,6 +629,7 @@ func (s *seqState) opNewAddresses() {
 	pw, how := s.password(m)
 	s.logf("new_addresses %s n=%d chain=%s password=%s (encrypted=%v)", m.id, n, sel, how, m.encrypted)
 	p := s.before()
+	s.touch = m.id
 	_, err := s.svc.NewAddresses(m.id, pw, opts...)
 	s.count("new_addresses."+how, err)
 	if err == nil && sel == "change" {
@@ -621,6 +660,7 @@ func (s *seqState) opScan() {
 	}
 	s.logf("scan %s n=%d password=%s finder=%s", m.id, n, how, how2)
 	p := s.before()
+	s.touch = m.id
 	_, err := s.svc.ScanAddresses(m.id, pw, uint64(n), tf)
 	s.count("scan."+how2, err)
 	s.after(p, err, nil)
@@ -635,6 +675,7 @@ func (s *seqState) opLabel() {
 	label := "relabel " + wfix.RandToken(s.rng, 5)
 	s.logf("label %s %q", id, label)
 	p := s.before()
+	s.touch = id
 	err := s.svc.UpdateWalletLabel(id, label)
 	s.count("label", err)
 	s.after(p, err, nil)
@@ -651,6 +692,7 @@ func (s *seqState) opEncrypt() {
 	}
 	s.logf("encrypt %s (encrypted=%v temp=%v kind=%s) password=%q", m.id, m.encrypted, m.temp, m.kind, pw)
 	p := s.before()
+	s.touch = m.id
 	_, err := s.svc.EncryptWallet(m.id, pw)
 	s.count("encrypt", err)
 	if err == nil {
@@ -667,6 +709,7 @@ func (s *seqState) opDecrypt() {
 	pw, how := s.password(m)
 	s.logf("decrypt %s password=%s (encrypted=%v)", m.id, how, m.encrypted)
 	p := s.before()
+	s.touch = m.id
 	_, err := s.svc.DecryptWallet(m.id, pw)
 	s.count("decrypt."+how, err)
 	if err == nil {
@@ -701,6 +744,7 @@ func (s *seqState) opRecover() {
 	}
 	s.logf("recover %s %s new_password=%q (encrypted=%v kind=%s)", m.id, how, npw, m.encrypted, m.kind)
 	p := s.before()
+	s.touch = m.id
 	_, err := s.svc.RecoverWallet(m.id, seed, pass, npw)
 	s.count("recover."+how, err)
 	if err == nil {
@@ -723,6 +767,7 @@ func (s *seqState) opUnload() {
 		if !m.temp {
 			if b, ok := p.dir.files[id]; ok {
 				s.unloaded[id] = b
+				s.gone[id] = m
 			}
 		}
 		delete(s.loaded, id)
@@ -770,6 +815,7 @@ func (s *seqState) opUpdateSecrets() {
 	pw, pwHow := s.password(m)
 	s.logf("update_secrets %s closure=%s password=%s (encrypted=%v kind=%s)", m.id, how, pwHow, m.encrypted, m.kind)
 	p := s.before()
+	s.touch = m.id
 	err := s.svc.UpdateSecrets(m.id, pw, f)
 	s.count("update_secrets."+how, err)
 	s.after(p, err, nil)
@@ -783,6 +829,7 @@ func (s *seqState) opUpdate() {
 	f, how := s.closure()
 	s.logf("update %s closure=%s (encrypted=%v kind=%s)", m.id, how, m.encrypted, m.kind)
 	p := s.before()
+	s.touch = m.id
 	err := s.svc.Update(m.id, f)
 	s.count("update."+how, err)
 	s.after(p, err, nil)
@@ -830,11 +877,16 @@ func runSequence(r *vf.Run, id int) {
 		r.Violation("service-start-failed", map[string]string{"detail": err.Error()}, nil)
 		return
 	}
-	s := &seqState{r: r, id: id, rng: rng, dir: dir, cfg: cfg, svc: svc, loaded: map[string]*mw{}, unloaded: map[string][]byte{}, used: map[string]bool{}, seedUse: map[string]int{}}
+	s := &seqState{r: r, id: id, rng: rng, dir: dir, cfg: cfg, svc: svc, loaded: map[string]*mw{}, unloaded: map[string][]byte{}, used: map[string]bool{}, seedUse: map[string]int{},
+		gone: map[string]*mw{}, away: map[string]*mw{}, versions: map[*mw][]version{}, namesUsed: map[string]bool{}}
 	nops := 20 + rng.Intn(41)
 	// start with a couple of wallets so that the other operations have targets
 	s.opCreate(false)
 	for i := 1; i < nops && !s.bad; i++ {
+		if rng.Intn(100) < 8 {
+			s.opRestart()
+			continue
+		}
 		switch x := rng.Intn(100); {
 		case x < 22:
 			s.opCreate(false)
@@ -927,7 +979,26 @@ func main() {
 	fl("op.update_secrets.fails-early.error", 50, 1500)
 	fl("op.update.mutates-and-succeeds.ok", 30, 1000)
 	fl("op.update.fails-after-mutating.error", 30, 1000)
-	r.Finish("operation sequences of 20-60 steps over a wallet.Service on a private directory; operation, target wallet, parameters (kind, encryption, names, passwords right/wrong/missing, chains, closures that succeed / fail early / fail after mutating, duplicate seeds and names, bad parameters, two save-failure injections) are drawn from the run seed; all five clauses are evaluated after every operation against a freshly started service on the same directory; a sequence is distinct by its operation trace",
+	// service lifetimes and out-of-band directory changes
+	fl("restart.ok", 200, 7000)
+	fl("restart.plain", 30, 1000)
+	fl("restart.unloaded_wallet_back", 40, 1300)
+	fl("restart.refused_duplicate_wallet_files", 25, 800)
+	fl("oob.rename", 80, 2500)
+	fl("oob.copy_current", 30, 1000)
+	fl("oob.copy_earlier", 8, 250)
+	fl("oob.copy_without_generating_secret", 8, 250)
+	fl("oob.revert", 10, 300)
+	fl("oob.away", 15, 500)
+	fl("oob.back", 4, 120)
+	fl("oob.delete", 8, 250)
+	fl("oob.stray", 40, 1300)
+	fl("checked.started_wallet_equals_file", 500, 15000)
+	fl("checked.write_after_out_of_band_name_change", 40, 1300)
+	fl("checked.op_wrote_only_its_file", 1000, 30000)
+	r.Finish("operation sequences of 20-60 steps over wallet.Service lifetimes on a private directory: about every twelfth step stops the service, applies 0-3 out-of-band changes to the directory (wallet file renamed, copied under another name with current or earlier content, reverted to an earlier content, moved to / back from a non-wallet name, deleted, stray .bak/.tmp/~/.swp/.txt files) and starts a new service, which must start unless the model knows the same wallet to be in the directory twice (then refusal is expected and one file is removed); operation, target wallet, parameters (kind, encryption, names, passwords right/wrong/missing, chains, closures that succeed / fail early / fail after mutating, duplicate seeds and names, bad parameters, two save-failure injections) are drawn from the run seed; all six clauses are evaluated after every operation and every restart against a freshly started service on the same directory; a sequence is distinct by its operation trace",
+		"at a restart the started service's wallets are compared with the directory's *.wlt files modulo the file name recorded in the meta data (the statement does not say which name a renamed file carries); the consequences of the name are left to the clauses after the following operations",
+		"a directory holding the same generative wallet twice (out-of-band copy) may be refused at start: the model knows the duplicate, counts the refusal and removes one of the two files; collection wallets (no fingerprint) are loaded twice; out-of-band names end in .wlt or do not end in wlt at all",
 		"the generator never re-creates the seed or the file name of an unloaded wallet (the statement does not define that case); a service-generated name that happens to equal an unloaded wallet's file name is excluded likewise",
 		"'share a seed' is read as 'same generating secret': same wallet type, seed and seed passphrase (or the same xpub). The same mnemonic used for a deterministic and a bip44 wallet, or for bip44 wallets with different passphrases, derives different keys and is accepted by the service; such creations are generated and counted (create.same_mnemonic_*) but not asserted",
 		"explicit wallet names always end in .wlt (the API only ever passes generated names); save failures are injected only for creation (over-long name, directory in the way) because this sandbox runs as root and read-only directories do not bind; the temp file SaveBinary leaves behind in the second injection is ignored",
